@@ -4,6 +4,7 @@ import json
 import os
 import shutil
 
+import code_tie
 import vlib
 
 META = {
@@ -30,6 +31,7 @@ META = {
 MODEL = ["theories/Arch/ExtractCorr.vo"]
 PROOFS = ["theories/Props/C17.vo"]
 STATEMENT_FILES = ["theories/Props/C17.v", "theories/Arch/ExtractGen.v"]
+SEMANTIC_TIE = code_tie.functions("C17")   # Go bodies proved equal to the model (Props/C17Code.v)
 
 RES = {"ok": 0, "refused": 1, "oserr": 2, "unsupported": 3, "notfound": 4}
 
@@ -220,6 +222,7 @@ def run(ck):
         ck.discharged = list(ck.obligations)
     if ck.thorough and proofs_ok:
         ck.coqchk(["Verif.Props.C17"])
+    code_tie.run(ck, "C17")
 
     scratch = os.environ.get("VERIF_SCRATCH") or os.path.join(vlib.BUILD, "scratch")
     scratch = os.path.join(scratch, "c17")
